@@ -40,6 +40,13 @@ BUILTIN_EXC_PARENT = {
 BUILTIN_NAMES = set(dir(builtins))
 
 
+def _bound_call(cnode: ast.Call) -> bool:
+    """The callee expression binds its receiver: `obj.m(..)` or `getattr(obj, name)(..)`; a plain name / table entry does not."""
+    f = cnode.func
+    return isinstance(f, ast.Attribute) or (isinstance(f, ast.Call) and isinstance(f.func, ast.Name) and f.func.id == 'getattr'
+                                            and len(f.args) >= 2)
+
+
 @dataclass
 class Ob:
     fn: FuncInfo
@@ -1157,16 +1164,18 @@ class ExcAnalysis:
         cls = self.prog.classes[t[1]]
         if not (cls.is_dataclass and cls.frozen):
             return None
+        known: List[Tuple[str, Tuple[str, str], str]] = []
         for cond, pol in self.abs.facts_at(n):
             if not (pol and isinstance(cond, ast.Compare) and len(cond.ops) == 1 and
                     isinstance(cond.ops[0], (ast.Eq, ast.Is)) and isinstance(cond.left, ast.Attribute)
                     and same_expr(cond.left.value, X)):
                 continue
-            g = cond.left.attr
             sym = self.prog.resolve_expr_symbol(fn.module, cond.comparators[0])
             if not (isinstance(sym, tuple) and sym[0] == 'enum_member'):
                 continue
-            member = (sym[1].fq, sym[2])
+            known.append((cond.left.attr, (sym[1].fq, sym[2]), f'this access is under `{ast.unparse(cond)}`'))
+        known.extend(self._dispatch_facts(fn, X))
+        for g, member, under in known:
             sites = self._ctor_sites(cls)
             if not sites:
                 return None
@@ -1192,9 +1201,88 @@ class ExcAnalysis:
                     return None
             if n_match:
                 return (f'constructor-site correlation: all {len(sites)} constructions of {cls.name} pass a non-None '
-                        f'`{f}` whenever `{g}` is {member[1]} ({n_match} such site(s), verified on this run), and this '
-                        f'access is under `{ast.unparse(cond)}`')
+                        f'`{f}` whenever `{g}` is {member[1]} ({n_match} such site(s), verified on this run), and {under}')
         return None
+
+    def _dispatch_facts(self, fn: FuncInfo, X: ast.expr) -> List[Tuple[str, Tuple[str, str], str]]:
+        """Facts `X.g == Enum.M` that hold in a method because of HOW it is reached: every call of it is `r.m(.., a, ..)` with
+        `a` bound to the parameter X and the receiver `r = factory(.., a.g, ..)` built, in the same caller, from that very
+        object's field g; interpreting the factory for every member of g's enum (E6, the other arguments opaque names) shows
+        that the object it returns dispatches `m` to this method for the single member M only."""
+        out: List[Tuple[str, Tuple[str, str], str]] = []
+        if fn.cls is None or not isinstance(X, ast.Name) or X.id not in [a.arg for a in fn.params()][1:] or fn.is_static:
+            return out
+        if X.id in self.cg.env(fn)._assign_sites:
+            return out
+        callers = [(c, nd) for c, nd, _k in self.cg.callers(fn)]
+        if not callers or not all(isinstance(nd, ast.Call) and isinstance(nd.func, ast.Attribute) for _c, nd in callers):
+            return out
+        pnames = [a.arg for a in fn.params()][1:]
+        agreed: Optional[Tuple[str, Tuple[str, str], str]] = None
+        from .scenario import Interp, EnumV, Atom, Obj, ClassRef, Undecided, Raised
+        for cfn, cnode in callers:
+            if any(isinstance(a, ast.Starred) for a in cnode.args) or any(k.arg is None for k in cnode.keywords):
+                return out
+            idx = pnames.index(X.id)
+            a = cnode.args[idx] if idx < len(cnode.args) else next((k.value for k in cnode.keywords if k.arg == X.id), None)
+            r = cnode.func.value
+            env = self.cg.env(cfn)
+            if not isinstance(a, ast.Name) or not isinstance(r, ast.Name):
+                return out
+            cparams = [p.arg for p in cfn.params()]
+            if not ((a.id in cparams and a.id not in env._assign_sites) or env.single_def(a.id) is not None):
+                return out
+            made = env.single_def(r.id)
+            if not isinstance(made, ast.Call) or any(isinstance(x, ast.Starred) for x in made.args) or \
+                    any(k.arg is None for k in made.keywords):
+                return out
+            factories = [c for c in env.resolve_call(made) if isinstance(c, FuncInfo)]
+            if len(factories) != 1 or len(env.resolve_call(made)) != 1:
+                return out
+            factory = factories[0]
+            key_slots = [(i, x) for i, x in enumerate(list(made.args) + [k.value for k in made.keywords])
+                         if isinstance(x, ast.Attribute) and same_expr(x.value, a)]
+            if len(key_slots) != 1:
+                return out
+            slot, key = key_slots[0]
+            kt = strip_opt(self.abs.type_at(cfn, key, made))
+            en = self.prog.classes.get(kt[1]) if kt[0] == 'cls' else None
+            if en is None or not en.is_enum:
+                return out
+            self_val = None
+            if factory.cls is not None and not factory.is_static:
+                named = self.prog.resolve_expr_symbol(cfn.module, made.func.value) if isinstance(made.func, ast.Attribute) else None
+                if not (factory.is_classmethod and isinstance(named, ClassInfo)):
+                    return out
+                self_val = ClassRef(named)
+            mine: List[str] = []
+            for member in en.enum_members:
+                it = Interp(self.prog)
+                args = [EnumV(en, member) if i == slot else Atom(f'arg{i}') for i in range(len(made.args))]
+                kwargs = {k.arg: (EnumV(en, member) if len(made.args) + j == slot else Atom(f'kw_{k.arg}'))
+                          for j, k in enumerate(made.keywords)}
+                try:
+                    res = it.call_function(factory, args, kwargs, self_val=self_val)
+                except Raised:
+                    continue            # no object, no dispatch
+                except Undecided:
+                    return out
+                if not isinstance(res, Obj):
+                    return out
+                if self.prog.lookup_method(res.cls, fn.name) is fn:
+                    mine.append(member)
+            if len(mine) != 1:
+                return out
+            fact = (key.attr, (en.fq, mine[0]),
+                    f'this method is only reached through `{ast.unparse(made)[:80]}` in {cfn.qualname}, which hands out a '
+                    f'{fn.cls.name} for {en.name}.{mine[0]} alone (the factory interpreted for all {len(en.enum_members)} members), '
+                    f'with `{X.id}` the object whose `{key.attr}` selected it')
+            if agreed is not None and agreed[:2] != fact[:2]:
+                return out
+            agreed = fact
+        if agreed is not None:
+            out.append(agreed)
+        return out
 
     def _field_nonempty_everywhere(self, fn: FuncInfo, recv: ast.expr, node: ast.AST) -> Optional[str]:
         """recv == <obj>.<field> with obj an instance of a frozen dataclass of the package every construction of which - all
@@ -1283,7 +1371,7 @@ class ExcAnalysis:
         idx = params.index(pname)
         notes = []
         for cfn, cnode, _k in callers:
-            j = idx - (offset if isinstance(cnode.func, ast.Attribute) else 0)      # (a plain call passes self explicitly)
+            j = idx - (offset if _bound_call(cnode) else 0)      # (a plain call passes self explicitly)
             arg = cnode.args[j] if 0 <= j < len(cnode.args) else next(
                 (k.value for k in cnode.keywords if k.arg == pname), None)
             if arg is None:
@@ -1462,8 +1550,15 @@ class ExcAnalysis:
         pl = self._place(fn, cond)
         if pl is not None:
             return ('truthy', pl, pol)
+        tk = self._typekey_lookup(fn, cond)
+        if tk is not None:
+            return ('typekey', tk[0], tk[1], pol)         # the lookup by type(place) found an entry
         if isinstance(cond, ast.Compare) and len(cond.ops) == 1:
             op, lhs, rhs = cond.ops[0], cond.left, cond.comparators[0]
+            if isinstance(rhs, ast.Constant) and rhs.value is None and isinstance(op, (ast.Is, ast.IsNot, ast.Eq, ast.NotEq)):
+                tk = self._typekey_lookup(fn, lhs)
+                if tk is not None:
+                    return ('typekey', tk[0], tk[1], (not pol) if isinstance(op, (ast.Is, ast.Eq)) else pol)
             if self._place(fn, lhs) is None and self._place(fn, rhs) is not None and \
                     isinstance(op, (ast.Eq, ast.NotEq, ast.Is, ast.IsNot)):
                 lhs, rhs = rhs, lhs           # symmetric operators: `CONST == x` is `x == CONST`
@@ -1504,6 +1599,56 @@ class ExcAnalysis:
                 if all(a is not None for a in inner):
                     return ('or', inner)
         return None
+
+    def _typekey_lookup(self, fn: FuncInfo, e: ast.expr) -> Optional[Tuple[tuple, Tuple[str, ...]]]:
+        """`e` is (a write-once local bound to) `TABLE.get(type(p))` with p a parameter place and TABLE a module-level dict
+        display (possibly behind MappingProxyType) keyed by classes of the package, all values non-None constants, that
+        nothing in the package writes: (place, the key classes).  The lookup yields None exactly when type(p) is no key."""
+        prog = self.prog
+        env = self.cg.env(fn)
+        if isinstance(e, ast.Name):
+            d = env.single_def(e.id)
+            if d is None:
+                return None
+            e = d
+        if not (isinstance(e, ast.Call) and isinstance(e.func, ast.Attribute) and e.func.attr == 'get' and len(e.args) == 1
+                and not e.keywords and isinstance(e.func.value, ast.Name)):
+            return None
+        k = e.args[0]
+        subj = None
+        if isinstance(k, ast.Call) and isinstance(k.func, ast.Name) and k.func.id == 'type' and len(k.args) == 1 and not k.keywords \
+                and prog.resolve_name(fn.module, 'type') is None and 'type' not in env.vars:
+            subj = k.args[0]
+        elif isinstance(k, ast.Attribute) and k.attr == '__class__':
+            subj = k.value
+        pl = self._place(fn, subj) if subj is not None else None
+        if pl is None:
+            return None
+        tname = e.func.value.id
+        if tname in env.vars or env._assign_sites.get(tname):
+            return None
+        sym = prog.resolve_name(fn.module, tname)
+        if not (isinstance(sym, tuple) and sym[0] == 'const'):
+            return None
+        node, mod = sym[1], sym[2]
+        stmt = prog.parent(node)
+        from .rules.shared import readonly_table
+        if not isinstance(stmt, (ast.Assign, ast.AnnAssign)) or readonly_table(prog, mod, stmt) is None:
+            return None
+        if isinstance(node, ast.Call) and len(node.args) == 1:
+            node = node.args[0]
+        if not isinstance(node, ast.Dict) or not node.keys or any(x is None for x in node.keys):
+            return None
+        keys = []
+        for kx, vx in zip(node.keys, node.values):
+            c = prog.resolve_expr_symbol(mod, kx) if isinstance(kx, (ast.Name, ast.Attribute)) else None
+            if not isinstance(c, ClassInfo) or (isinstance(vx, ast.Constant) and vx.value is None):
+                return None
+            if not (isinstance(vx, ast.Constant) or isinstance(prog.resolve_expr_symbol(mod, vx) if isinstance(vx, (ast.Name, ast.Attribute)) else None,
+                                                            (FuncInfo, ClassInfo, tuple))):
+                return None
+            keys.append(c.fq)
+        return pl, tuple(keys)
 
     def _atoms(self, fn: FuncInfo, facts) -> Optional[List[tuple]]:
         out = []
@@ -1589,6 +1734,25 @@ class ExcAnalysis:
         if kind == 'enumeq':
             if v.enum is not None:
                 return res(YES if v.enum == atom[2] else NO)
+            return MAYBE
+        if kind == 'typekey':
+            # type(value) is a key: every class the value can be an instance of - the classes of its static type and whatever
+            # the package derives from them - is listed
+            if v.none == YES:
+                return res(NO)
+            t = strip_opt(v.type)
+            members = list(t[1]) if t[0] == 'union' else [t]
+            if not members or any(strip_opt(m)[0] != 'cls' or strip_opt(m)[1] not in self.prog.classes for m in members):
+                return MAYBE
+            runtime = set()
+            for m in members:
+                fq = strip_opt(m)[1]
+                runtime.add(fq)
+                runtime |= {c.fq for c in self.prog.classes.values() if any(isinstance(a, ClassInfo) and a.fq == fq for a in self.prog.ancestors(c))}
+            if runtime <= set(atom[2]):
+                return res(YES) if v.none == NO else MAYBE
+            if not (runtime & set(atom[2])):
+                return res(NO)
             return MAYBE
         return MAYBE
 
@@ -1801,7 +1965,7 @@ class ExcAnalysis:
             return binding
         offset = 1 if (callee.cls is not None and not callee.is_static and callee.parent is None and pnames
                        and pnames[0] in ('self', 'cls')) else 0
-        if offset and ctor is None and isinstance(cnode, ast.Call) and not isinstance(cnode.func, ast.Attribute):
+        if offset and ctor is None and isinstance(cnode, ast.Call) and not _bound_call(cnode):
             offset = 0          # the plain function taken out of a table / a name: `self` is passed explicitly
         if ctor is not None:
             offset = 1
@@ -2019,6 +2183,8 @@ class ExcAnalysis:
             return f'{atom[1]}(`{arg}`) is {pol}'
         if atom[0] == 'enumeq':
             return f'`{arg}` {"==" if pol else "!="} {atom[2][1]}'
+        if atom[0] == 'typekey':
+            return f'the class of `{arg}` is {"" if pol else "not "}one of {", ".join(k.split(".")[-1] for k in atom[2])}'
         return str(atom)
 
     def _site_ob(self, fn: FuncInfo, cnode: ast.AST, cr: CondRaise, why: str) -> Ob:
